@@ -99,6 +99,7 @@ def at2 (a : List (List Rat)) (l p : Int) : Rat := ((a.getD l.toNat []).getD p.t
 
 def handle : List String → Option String
   | "search" :: rows :: cols :: rest => do
+    -- reply per target pixel: nan | P,L,nn_l,nn_p,l_a,l_b,w_l,p_a,p_b,w_p
     -- search <rows> <cols> sx sy xl xp yl yp (each rows*cols) <trows> <tcols> dstx dsty (each trows*tcols; "inf" allowed)
     let rows ← nat? rows; let cols ← nat? cols
     let (sx, t) ← grid2? rows cols rest
@@ -128,7 +129,11 @@ def handle : List String → Option String
             let (r, cur', last') := searchLoop f lmax pmax X Y 5 cur last
             let s := match r with
               | none => "nan"
-              | some v => showRat (indicesXY v).1 ++ "," ++ showRat (indicesXY v).2
+              | some v =>
+                let n := nnPixel v lmax pmax
+                let b := bilParams v lmax pmax
+                ",".intercalate [showRat (indicesXY v).1, showRat (indicesXY v).2, toString n.1, toString n.2,
+                  toString b.1, toString b.2.1, showRat b.2.2.1, toString b.2.2.2.1, toString b.2.2.2.2.1, showRat b.2.2.2.2.2]
             (cur', last', (i * tc + j, s) :: out)
           | _, _ => (cur, last, (i * tc + j, "nan") :: out)) acc) init
       let sorted := (List.range (tr * tc)).map (fun k => ((res.2.2.find? (fun p => p.1 == k)).map (·.2)).getD "nan")
